@@ -1,6 +1,7 @@
 package engine
 
 import (
+	"bytes"
 	"crypto"
 	"crypto/ecdsa"
 	"crypto/elliptic"
@@ -12,6 +13,7 @@ import (
 	"math/big"
 	"strings"
 	"time"
+	"unicode/utf16"
 )
 
 // Artifacts "made by another tool": keys, certificates and requests written
@@ -28,6 +30,7 @@ type ForeignParams struct {
 	PubForm string `json:"pubForm,omitempty"` // EC: point form of that optional public key: "" uncompressed | compressed | hybrid (SEC 1 2.3.3)
 	Pad     string `json:"pad,omitempty"`     // EC scalar: fixed | stripped | extra
 	Sig     string `json:"sig,omitempty"`     // signature algorithm name; default SHA-256 of the signer's family
+	MultiRDN bool  `json:"multiRDN,omitempty"` // the certificate's subject starts with a multi-valued RDN
 	AltDN   bool   `json:"altDN,omitempty"`   // the certificate's subject text differs from the config's subject
 	Order   string `json:"order,omitempty"`   // "" certificate first | key-first (as some tools write it)
 	Point   string `json:"point,omitempty"`   // EC public key in the certificate: "" uncompressed | compressed (NIST curves only)
@@ -215,6 +218,14 @@ func derName(subject []RDN, strType string) []byte {
 			if isASCII(r.V) {
 				tag = 0x14
 			}
+		case "bmp":
+			// BMPString: UTF-16BE, what older Microsoft CAs write
+			var b []byte
+			for _, u := range utf16.Encode([]rune(r.V)) {
+				b = append(b, byte(u>>8), byte(u))
+			}
+			rdns = append(rdns, derSet(derSeq(derOIDBytes(oid), derTLV(0x1e, b))))
+			continue
 		}
 		rdns = append(rdns, derSet(derSeq(derOIDBytes(oid), derTLV(tag, []byte(r.V)))))
 	}
@@ -369,6 +380,17 @@ func buildForeignArtifact(w *World, e *EntitySpec, arg string) ([]byte, error) {
 			names = append(append([]RDN(nil), e.Subject...), RDN{"O", "Imported Elsewhere"})
 		}
 		subj := derName(names, p.Str)
+		if p.MultiRDN {
+			// a multi-valued RDN in front (CN + serialNumber in one SET, elements in DER order)
+			a := derSeq(derOIDBytes("2.5.4.3"), derTLV(0x0c, []byte("Multi "+e.ID)))
+			b := derSeq(derOIDBytes("2.5.4.5"), derTLV(0x13, []byte("42")))
+			set := derSet(a, b)
+			if bytes.Compare(a, b) > 0 {
+				set = derSet(b, a)
+			}
+			top, _, _ := readTLV(subj)
+			subj = derSeq(append([][]byte{set}, splitTLVs(top.Content)...)...)
+		}
 		issuerDN := subj
 		signer, fam := k.priv, k.fam
 		if e.Issuer != "" {
@@ -512,4 +534,19 @@ func buildOddCert(kind string, subj []byte, k *genKeyT, signer crypto.Signer, fa
 		return nil, err
 	}
 	return derSeq(tbs, alg, derBitString(sig)), nil
+}
+
+// splitTLVs returns the encoded elements of a constructed value's content.
+func splitTLVs(content []byte) [][]byte {
+	var out [][]byte
+	for len(content) > 0 {
+		t, rest, err := readTLV(content)
+		if err != nil {
+			break
+		}
+		out = append(out, content[:len(content)-len(rest)])
+		_ = t
+		content = rest
+	}
+	return out
 }
